@@ -66,13 +66,31 @@ struct Step {
 };
 
 // slots: 0 -> ThreadLocal<int, IndexSlot<0>>, 1 -> ThreadLocal<int, IndexSlot<1>>, 2 -> ThreadLocal<long, IndexSlot<0>>
+// The abstract value of a slot is an integer; TlVal<V> maps it to and from the slot's value type.
+template <typename V> struct TlVal {
+  static V from(int v) { return static_cast<V>(v); }
+  static int to(const V& v) { return static_cast<int>(v); }
+};
+template <> struct TlVal<std::string> {
+  static std::string from(int v) { return "value-" + std::to_string(v) + "-with-a-tail-long-enough-to-live-on-the-heap"; }
+  static int to(const std::string& s) { return s.size() > 6 ? atoi(s.c_str() + 6) : -2; }
+};
+template <> struct TlVal<std::vector<int>> {
+  static std::vector<int> from(int v) { return std::vector<int>(3, v); }
+  static int to(const std::vector<int>& s) { return s.size() == 3 && s[0] == s[2] ? s[1] : -2; }
+};
+template <> struct TlVal<std::unique_ptr<int>> {
+  static std::unique_ptr<int> from(int v) { return std::make_unique<int>(v); }
+  static int to(const std::unique_ptr<int>& s) { return s ? *s : -2; }
+};
 template <typename TL, typename V>
 int TlOp(const std::string& op, int val) {
-  if (op == "init") { TL h(static_cast<V>(val)); return static_cast<int>(h.Get()); }
+  using C = TlVal<V>;
+  if (op == "init") { TL h(C::from(val)); return C::to(h.Get()); }
   // a handle constructed without arguments leaves an empty slot empty; Initialize() then applies the same rule
-  if (op == "initialize") { TL h; h.Initialize(static_cast<V>(val)); return static_cast<int>(h.Get()); }
-  if (op == "set") { TL h(static_cast<V>(val)); h.Get() = static_cast<V>(val); return static_cast<int>(h.Get()); }
-  if (op == "clear") { TL h(static_cast<V>(0)); h.Clear(); return -1; }
+  if (op == "initialize") { TL h; h.Initialize(C::from(val)); return C::to(h.Get()); }
+  if (op == "set") { TL h(C::from(val)); h.Get() = C::from(val); return C::to(h.Get()); }
+  if (op == "clear") { TL h(C::from(0)); h.Clear(); return -1; }
   return -1;
 }
 int RunTl(const std::string& op, int slot, int val) {
@@ -84,13 +102,20 @@ int RunTl(const std::string& op, int slot, int val) {
   using S3 = nop::ThreadLocal<int>;
   using S4 = nop::ThreadLocal<int, nop::ThreadLocalSlot<void, 1>>;
   using S5 = nop::ThreadLocal<int, nop::ThreadLocalTypeSlot<long>>;
+  // value types with a destructor of their own (heap-owning, move-only): storage that must be destroyed at thread exit
+  using S6 = nop::ThreadLocal<std::string, nop::ThreadLocalIndexSlot<0>>;
+  using S7 = nop::ThreadLocal<std::vector<int>, nop::ThreadLocalIndexSlot<0>>;
+  using S8 = nop::ThreadLocal<std::unique_ptr<int>>;
   switch (slot) {
     case 0: return TlOp<S0, int>(op, val);
     case 1: return TlOp<S1, int>(op, val);
     case 2: return TlOp<S2, long>(op, val);
     case 3: return TlOp<S3, int>(op, val);
     case 4: return TlOp<S4, int>(op, val);
-    default: return TlOp<S5, int>(op, val);
+    case 5: return TlOp<S5, int>(op, val);
+    case 6: return TlOp<S6, std::string>(op, val);
+    case 7: return TlOp<S7, std::vector<int>>(op, val);
+    default: return TlOp<S8, std::unique_ptr<int>>(op, val);
   }
 }
 
@@ -98,6 +123,44 @@ int RunTl(const std::string& op, int slot, int val) {
 // Serializer / Deserializer hold their writer / reader: 0 by value, 1 by pointer, 2 by std::unique_ptr
 // (base/serializer.h has one specialization for each); 3..5 other library writer / reader classes by value.
 thread_local int g_form = 0;
+thread_local bool g_cuts = false;     // forms command: also every strict prefix / every smaller capacity, directly on the library classes
+template <typename R, typename T, typename... A>
+int CutStatus(A&&... a) {
+  T back{};
+  nop::Deserializer<R> des{std::forward<A>(a)...};
+  return Code(des.Read(&back));
+}
+template <typename W, typename T>
+int CapStatus(const T& v, size_t cap) {
+  std::unique_ptr<uint8_t[]> heap(new uint8_t[cap ? cap : 1]);    // exactly sized: an overrun is seen by the sanitizer builds
+  nop::Serializer<W> ser{heap.get(), cap};
+  return Code(ser.Write(v));
+}
+template <typename T>
+void EmitCuts(const T& v, const uint8_t* buf, size_t n, JsonOut& o) {
+  // typed block transfers reach BufferReader / PedanticBufferReader / StreamReader unchanged here (no harness layer)
+  o.key("cuts");
+  o.begin_arr();
+  for (size_t k = 0; k < n; k++) {
+    std::unique_ptr<uint8_t[]> heap(new uint8_t[k ? k : 1]);
+    if (k) memcpy(heap.get(), buf, k);
+    o.begin_arr();
+    o.num(CutStatus<nop::BufferReader, T>(heap.get(), k));
+    o.num(CutStatus<nop::PedanticBufferReader, T>(heap.get(), k));
+    o.num(CutStatus<nop::StreamReader<std::stringstream>, T>(std::string(reinterpret_cast<const char*>(heap.get()), k)));
+    o.end_arr();
+  }
+  o.end_arr();
+  o.key("caps");
+  o.begin_arr();
+  for (size_t c = 0; c < n; c++) {
+    o.begin_arr();
+    o.num(CapStatus<nop::PedanticBufferWriter, T>(v, c));
+    o.num(CapStatus<nop::ConstexprBufferWriter, T>(v, c));
+    o.end_arr();
+  }
+  o.end_arr();
+}
 template <typename T>
 void RoundTrip(const char* tid, const T& v, std::string* extra) {
   uint8_t buf[512];
@@ -168,6 +231,7 @@ void RoundTrip(const char* tid, const T& v, std::string* extra) {
   o.kv_num("st2", Code(st2));
   o.kv_num("used", static_cast<long long>(used));
   o.key("v2"); Abs<T>::to(back, o);
+  if (g_cuts && Code(st) == 0) EmitCuts(v, buf, n, o);
   *extra = o.s;
 }
 }  // namespace
@@ -315,6 +379,7 @@ void CmdTl(const Json& cmd, JsonOut& o) {
 // on the main thread (C01 / C03 / C06: the three specializations must behave alike).
 void CmdForms(const Json& cmd, JsonOut& o) {
   const int n = static_cast<int>(cmd.at("n").num(36));
+  g_cuts = cmd.has("cuts") && cmd.at("cuts").truthy();
   o.kv_str("e", "FORMS");
   o.key("steps");
   o.begin_arr();
@@ -328,6 +393,7 @@ void CmdForms(const Json& cmd, JsonOut& o) {
     }
   }
   o.end_arr();
+  g_cuts = false;
 }
 
 CommandRegistrar r_tl("tl", CmdTl), r_forms("forms", CmdForms);
